@@ -19,10 +19,11 @@ import MenelausVerif.Driver.HDM
 import MenelausVerif.Driver.KdqTree
 import MenelausVerif.Driver.KdqDetect
 import MenelausVerif.Driver.Validate
+import MenelausVerif.Driver.Scaler
 open MV.Driver
 
 def registry : List (List String → Option Machine) :=
-  [mkElection, mkLifecycle, mkSequential, mkEnsemble, mkNNSP, mkMD3, mkInject, mkLFR, mkErrDetectors, mkPCACD, mkAdwin, mkHDM, mkKdqTree, mkKdqDetect, mkValidate]
+  [mkElection, mkLifecycle, mkSequential, mkEnsemble, mkNNSP, mkMD3, mkInject, mkLFR, mkErrDetectors, mkPCACD, mkAdwin, mkHDM, mkKdqTree, mkKdqDetect, mkValidate, mkScaler]
 
 def mkMachine (ts : List String) : Option Machine :=
   registry.findSome? (fun f => f ts)
